@@ -276,6 +276,9 @@ def check(case):
                 g = got[var_names.index("u")]
                 if g != 0.0:
                     return outcome(False, "wrong-value", symptom="untouched-nonzero", detail=f"u: {g}")
+            # the named forms take a mapping: its key order is free (reversed here on every second point)
+            if len(rows) % 2 == 0:
+                state = dict(reversed(list(state.items())))
             # 2 named rhs
             rhs = m.get_right_hand_side(state, t)
             if list(rhs.index) != var_names:
@@ -308,34 +311,40 @@ def check(case):
                 if not close(tot, exp_rhs[v], 1e-11):
                     return outcome(False, "wrong-value", symptom="wrong-value:stoichiometries", detail=f"(N.v)[{v}]={tot} expected {exp_rhs[v]} at t={t}")
 
-        # time-course forms: row label is the time
-        frame = pd.DataFrame(rows).T
-        frame = frame[var_names]
-        atc = m.get_args_time_course(frame, include_readouts=True)
-        if list(atc.index) != list(frame.index):
-            return outcome(False, "wrong-index", symptom="wrong-index:args_tc", detail=str(list(atc.index)))
-        for t in frame.index:
-            for n, e in all_rows[t].items():
-                if n == "time":
-                    continue
-                if n not in atc.columns:
-                    return outcome(False, "wrong-names", symptom="wrong-names:args_tc", detail=n)
-                if not close(float(atc.loc[t, n]), e):
-                    return outcome(False, "wrong-value", symptom="wrong-value:args_tc", detail=f"args_tc[{t},{n}]={atc.loc[t, n]} expected {e}")
-        ftc = m.get_fluxes_time_course(frame)
-        if list(ftc.columns) != flux_names:
-            return outcome(False, "wrong-order", symptom="wrong-order:fluxes_tc", detail=str(list(ftc.columns)))
-        for t in frame.index:
-            for r in flux_names:
-                if not close(float(ftc.loc[t, r]), all_rows[t][r]):
-                    return outcome(False, "wrong-value", symptom="wrong-value:fluxes_tc", detail=f"fluxes_tc[{t},{r}]={ftc.loc[t, r]} expected {all_rows[t][r]}")
-        rtc = m.get_right_hand_side_time_course(m.get_args_time_course(frame))
-        if list(rtc.columns) != var_names:
-            return outcome(False, "wrong-order", symptom="wrong-order:rhs_tc", detail=str(list(rtc.columns)))
-        for t in frame.index:
-            for v in var_names:
-                if not close(float(rtc.loc[t, v]), rhs_rows[t][v]):
-                    return outcome(False, "wrong-value", symptom="wrong-value:rhs_tc", detail=f"rhs_tc[{t},{v}]={rtc.loc[t, v]} expected {rhs_rows[t][v]}")
+        # time-course forms: row label is the time. The frame's columns are *named*: their order is free
+        # (declaration order, reversed, rotated) and must not change any number
+        col_orders = [list(var_names)]
+        for alt in (list(reversed(var_names)), var_names[1:] + var_names[:1]):
+            if alt not in col_orders:
+                col_orders.append(alt)
+        for cols in col_orders:
+            frame = pd.DataFrame(rows).T
+            frame = frame[cols]
+            atc = m.get_args_time_course(frame, include_readouts=True)
+            if list(atc.index) != list(frame.index):
+                return outcome(False, "wrong-index", symptom="wrong-index:args_tc", detail=str(list(atc.index)))
+            for t in frame.index:
+                for n, e in all_rows[t].items():
+                    if n == "time":
+                        continue
+                    if n not in atc.columns:
+                        return outcome(False, "wrong-names", symptom="wrong-names:args_tc", detail=n)
+                    if not close(float(atc.loc[t, n]), e):
+                        return outcome(False, "wrong-value", symptom="wrong-value:args_tc", detail=f"args_tc[{t},{n}]={atc.loc[t, n]} expected {e}")
+            ftc = m.get_fluxes_time_course(frame)
+            if list(ftc.columns) != flux_names:
+                return outcome(False, "wrong-order", symptom="wrong-order:fluxes_tc", detail=str(list(ftc.columns)))
+            for t in frame.index:
+                for r in flux_names:
+                    if not close(float(ftc.loc[t, r]), all_rows[t][r]):
+                        return outcome(False, "wrong-value", symptom="wrong-value:fluxes_tc", detail=f"fluxes_tc[{t},{r}]={ftc.loc[t, r]} expected {all_rows[t][r]}")
+            rtc = m.get_right_hand_side_time_course(m.get_args_time_course(frame))
+            if list(rtc.columns) != var_names:
+                return outcome(False, "wrong-order", symptom="wrong-order:rhs_tc", detail=str(list(rtc.columns)))
+            for t in frame.index:
+                for v in var_names:
+                    if not close(float(rtc.loc[t, v]), rhs_rows[t][v]):
+                        return outcome(False, "wrong-value", symptom="wrong-value:rhs_tc", detail=f"rhs_tc[{t},{v}]={rtc.loc[t, v]} expected {rhs_rows[t][v]}")
     except Exception as exc:  # the model is well-formed: any exception is a failure of the property
         import traceback
 
